@@ -88,6 +88,26 @@ def run(tier, rep):
                 rid, r = corp.add_message(raw[3:-3], msg, 1, lbl=False, ident="slice", tid=tid)
                 if bytes(msg.payload) != bytes(raw[3:-3]):
                     rep.reject("PayloadNotOfSlice", {"engine": "framer"}, {"raw_hex": raw.hex(), "payload_hex": bytes(msg.payload).hex()})
+    # one frame for EVERY 12-bit message number (payload of 70 bytes, long enough for any aliasing of a
+    # short layout): the object delivered with a slice carries the slice's own message number
+    import io as _io
+
+    from pyrtcm import RTCMReader as _RR
+
+    nums = list(range(4096))
+    allnum = b"".join(_fo(bytes([n >> 4, (n & 0xF) << 4 | rnd.randrange(16)]) + bytes(rnd.randrange(256) for _ in range(68))) for n in nums)
+    ndel = 0
+    for raw, msg in _RR(_io.BytesIO(allnum), quitonerror=0):
+        ndel += 1
+        num_in_slice = (raw[3] << 4) | (raw[4] >> 4)
+        rep.case(digest(["allnum", num_in_slice]))
+        ident_txt = str(msg.identity)
+        if ident_txt.split("_")[0] != str(num_in_slice) or bytes(msg.payload) != bytes(raw[3:-3]):
+            rep.reject("PayloadNotOfSlice", {"engine": "framer", "what": "message number"},
+                       {"raw_hex": raw.hex(), "number_in_slice": num_in_slice, "identity": ident_txt})
+        elif num_in_slice % 64 == 63 or ndel % 97 == 0:
+            corp.add_message(raw[3:-3], msg, 1, lbl=False, ident="slice", tid=0)      # a sample goes to the judge as well
+    rep.notes["all_message_numbers_stream"] = {"frames": len(nums), "delivered": ndel}
     fe.composition(rep, tr, verdicts, corp, limit=150 if quick else 1500)
     dv = corp.judge()
     for r in corp.recs:
